@@ -1,0 +1,42 @@
+//go:build verif
+
+// Contracts for the deductive verifier in /verif (comment-only file; compiled only with -tags verif).
+package log
+
+// ---------------------------------------------------------------------------------------------
+// C14: output. LogResults: per received result exactly one Write of that result to the logger's writer, before
+// the next receive (=> channel order, never interleaved); a write error is reported once, never a second write;
+// a timer tick only flushes. Exits: cancellation or closed stream.
+//@ func (*logger).LogResults
+//@   props C14 C12 C16
+//@   observe Write, (*logger).Error, (*bufio.Writer).Flush, time.After
+//@   loop 0 row cancel:    [ctxdone ; call Flush(_)] -> exit
+//@   loop 0 row closed:    [recv results as (v, false) ; call Flush(_)] -> exit
+//@   loop 0 row write:     [recv results as (v, true) ; call Write(l.rw, l.w, v) as (e)] when e == nil -> continue
+//@   loop 0 row write_err: [recv results as (v, true) ; call Write(l.rw, l.w, v) as (e) ; call (*logger).Error(l, e)] when e != nil -> continue
+//@   loop 0 row tick:      [recv pre(timec) as (_, _) ; call Flush(_) as (fe) ; call time.After(l.flushInterval) as (t)] when fe == nil && timec == t -> continue
+//@   loop 0 row tick_err:  [recv pre(timec) as (_, _) ; call Flush(_) as (fe) ; call (*logger).Error(l, fe) ; call time.After(l.flushInterval) as (t)] when fe != nil && timec == t -> continue
+
+// JSON writer: MarshalJSON once; on success exactly one Fprintf of the marshalled bytes followed by a newline
+// (one line per result, one write, never split); on failure nothing is written.
+//@ func (*JSONResultWriter).Write
+//@   props C14
+//@   observe MarshalJSON, fmt.Fprintf
+//@   entry row fail: [call MarshalJSON(result) as (d, e)] when e != nil && ret == e -> exit
+//@   entry row line: [call MarshalJSON(result) as (d, e) ; call fmt.Fprintf(w, "%s\n", bind_a)] when e == nil && ret == nil && len(a) == 1 && istype(a[0], []byte) && astype(a[0], []byte) == d -> exit
+
+// de-duplication: a result is forwarded iff its ID was not seen before; the ID is then remembered and nothing
+// is ever forgotten (=> every distinct host once, at its first sighting)
+//@ func (*UniqueLogger).uniqResults$1
+//@   props C14 C12
+//@   observe ID
+//@   loop 0 row cancel: [ctxdone ; close results] -> exit
+//@   loop 0 row closed: [recv in as (v, false) ; close results] -> exit
+//@   loop 0 row dup:    [recv in as (v, true) ; call ID(v) as (id)] when pre(mapin(set, id)) && (forall k int :: mapin(set, k) == pre(mapin(set, k))) -> continue
+//@   loop 0 row first:  [recv in as (v, true) ; call ID(v) as (id) ; send? results v]
+//@                        when !pre(mapin(set, id)) && mapin(set, id) && (forall k int :: k != id ==> mapin(set, k) == pre(mapin(set, k))) -> continue
+//@   loop 0 row first_c: [recv in as (v, true) ; call ID(v) as (id) ; ctxdone ; close results] when !pre(mapin(set, id)) -> exit
+//@ func (*UniqueLogger).LogResults
+//@   props C14
+//@   observe uniqResults, LogResults
+//@   entry row wrap: [call uniqResults(l, ctx, results) ; go (*UniqueLogger).uniqResults$1{results: bind_u, in: bind_in} ; call LogResults(l.logger, ctx, bind_u2)] when u == u2 && in == results -> exit
